@@ -78,13 +78,15 @@ var verifC16Lengths = []uint64{5, 8, 20}
 // epoch is strictly later, and the earliest epoch kept only moves forward and drops only epochs older than the
 // blocks-to-save window in force at that epoch.
 func VerifC16Grid() {
-	e0 := verifC16Lengths[verif_nondet_range("epochBlocks.before", 0, 2)]
-	s0 := uint64(verif_nondet_range("epochsToSave.before", 1, 3))
+	e0 := verifC16Lengths[verif_nondet_range("epochBlocks.before", 0, verif_param("lengths_before", 2)-1)]
+	s0 := uint64(verif_nondet_range("epochsToSave.before", 1, verif_param("max_epochs_to_save", 2)))
 	e1 := verifC16Lengths[verif_nondet_range("epochBlocks.after", 0, 2)]
-	s1 := uint64(verif_nondet_range("epochsToSave.after", 1, 3))
-	m := uint64(verif_nondet_range("epochsSinceGenesis", 3, 6))
-	kept := uint64(verif_nondet_range("epochsKeptInMemory", 0, 3))
-	verif_assume(kept <= s0 && kept <= m)
+	s1 := uint64(verif_nondet_range("epochsToSave.after", 1, verif_param("max_epochs_to_save", 2)))
+	m := uint64(verif_nondet_range("epochsSinceGenesis", 4, verif_param("max_epochs_since_genesis", 4)))
+	kept := s0     // chain memory is full ...
+	if verif_nondet_bool("memoryStillFilling") {
+		kept = 0 // ... or the chain has just started keeping epochs
+	}
 	start := m * e0
 	w := verifC16NewWorld(e0, s0, start, kept)
 	earliest0 := w.k.GetEarliestEpochStart(w.ctx)
